@@ -16,6 +16,9 @@ Flat(M) == LET n == Len(M) IN [k \in 1..(n * n) |-> M[((k - 1) \div n) + 1][((k 
 QapValue(F, D, p) ==
   LET n == Len(p) IN SumTo([k \in 1..(n * n) |->
       LET i == ((k - 1) \div n) + 1 j == ((k - 1) % n) + 1 IN F[i][j] * D[p[i]][p[j]]], n * n)
+\* the same sum row by row (recursion depth n instead of n*n: what TLC can afford for hundreds of facilities)
+QapValueRows(F, D, p) ==
+  LET n == Len(p) IN SumTo([i \in 1..n |-> SumTo([j \in 1..n |-> F[i][j] * D[p[i]][p[j]]], n)], n)
 BQapValue(F, D, p) ==
   LET n == Len(p) IN BSumTo([k \in 1..(n * n) |->
       LET i == ((k - 1) \div n) + 1 j == ((k - 1) % n) + 1 IN BMul(F[i][j], D[p[i]][p[j]])], n * n)
